@@ -21,6 +21,7 @@ type PoolDef struct {
 	Hosts    []string
 	K        int      // max subset size
 	Always   []string // patterns present in every set (fan-out pools)
+	Other    []string // patterns registered under POST in every set (several methods in one tree)
 }
 
 func fanStatics(n int) []string {
@@ -54,6 +55,9 @@ func Pools(quick bool) []PoolDef {
 	// deep3: the shape in which nested backtracking happens (depth-3 patterns, depth-3..4 paths)
 	deep3 := rsx.GenPatterns([]string{"ab", "{}", "a*{}"}, 3, false, "")
 	pools = append(pools, PoolDef{Name: "deep3", Patterns: deep3, Paths: rsx.GenPaths([]string{"a", "ab", "b", "aa"}, 4), Hosts: []string{""}, K: k})
+	// several methods: the same generated sets under GET next to a fixed, overlapping set under POST and a custom method
+	pools = append(pools, PoolDef{Name: "methods", Patterns: core, Paths: rsx.GenPaths(reqSegs, 3), Hosts: []string{""}, K: 2,
+		Other: []string{"/a/{p1}", "/{p0}", "/*{c0}/a", "/a"}})
 	// hostname pool
 	var hostPats []string
 	for _, h := range []string{"a.b", "b.a.b", "{h}.b", "a.{t}", "a{m}.b"} {
@@ -264,6 +268,9 @@ func runPool(c *mc.Ctx, r *mc.Result, pd PoolDef) {
 		for _, p := range pd.Always {
 			set = append(set, rsx.RouteSpec{Method: "GET", Pattern: p})
 		}
+		for i, p := range pd.Other {
+			set = append(set, rsx.RouteSpec{Method: []string{"POST", "FOO"}[i%2], Pattern: p})
+		}
 		e, err := rsx.Build(set, rsx.Profile{})
 		if err != nil {
 			r.Count("sets_rejected_by_router", 1)
@@ -276,20 +283,26 @@ func runPool(c *mc.Ctx, r *mc.Result, pd PoolDef) {
 		}
 		r.Count("sets", 1)
 		r.States++
+		reqMethods := []string{"GET"}
+		if len(pd.Other) > 0 {
+			reqMethods = []string{"GET", "POST", "FOO", "PUT"}
+		}
 		for _, h := range pd.Hosts {
 			for _, p := range pd.Paths {
-				rq := rsx.Req{Method: "GET", Host: h, Path: p}
-				abst, nontriv, class, msg := eval(e, a, rq)
-				r.Evaluations++
-				r.Transitions++
-				if abst {
-					r.Abstained++
-				}
-				if nontriv {
-					r.DistinctNontrivial++
-				}
-				if class != "" {
-					r.Violate("rsx", class, msg, Case{Set: set, Req: rq})
+				for _, m := range reqMethods {
+					rq := rsx.Req{Method: m, Host: h, Path: p}
+					abst, nontriv, class, msg := eval(e, a, rq)
+					r.Evaluations++
+					r.Transitions++
+					if abst {
+						r.Abstained++
+					}
+					if nontriv {
+						r.DistinctNontrivial++
+					}
+					if class != "" {
+						r.Violate("rsx", class, msg, Case{Set: set, Req: rq})
+					}
 				}
 			}
 		}
